@@ -179,7 +179,9 @@ class _RedisConsumer(ConsumerT):
         return None
 
     def __mark_processing(self, msg_short_name: str, full_queue_name: str, pipe: Pipeline) -> None:
-        pipe.zadd(self.broker.processing_queue, {msg_short_name: str(unix_time())})
+        # start time is rounded up to a whole second, so that maintenance never takes
+        # a message for timed out before its execution timeout has really elapsed
+        pipe.zadd(self.broker.processing_queue, {msg_short_name: str(unix_time() + 1)})
         pipe.hset(
             full_message_name_from_short(msg_short_name, full_queue_name),
             key="_reject_to",
